@@ -80,7 +80,7 @@ func c01Run(ctx *core.Ctx) {
 		maxLen, nRand, nCutSeeded = 8, 150000, 12
 		allCutsUpTo = 11
 	}
-	ctx.Rule = fmt.Sprintf("streams S+terminator with S exhaustive over the byte classes {'.',CR,LF,'x'} up to length %d, plus %d seeded streams over all 256 octets (length<=96) and long-line streams; each with several segmentations (one segment, octet-by-octet, single cuts, seeded cuttings%s) and backend read-buffer plans {1,2,3,5,4096,seeded}; SMTP and (1 in 10) LMTP with both backend kinds. Non-trivial: S has a '.' at a line start, a bare CR or a bare LF; distinct by (stream, cuts, plan, mode).", maxLen, nRand, map[bool]string{true: fmt.Sprintf(", all 2^(n-1) cuttings for streams up to %d octets", allCutsUpTo), false: ""}[allCutsUpTo > 0])
+	ctx.Rule = fmt.Sprintf("streams S+terminator with S exhaustive over the byte classes {'.',CR,LF,'x'} up to length %d, plus %d seeded streams over all 256 octets (length<=96) long-line streams, and streams of 2500 and 6100 octets made of short lines ending in bare LF / bare CR with no CRLF before the terminator; each with several segmentations (one segment, octet-by-octet, single cuts, seeded cuttings%s) and backend read-buffer plans {1,2,3,5,4096,seeded}; SMTP and (1 in 10) LMTP with both backend kinds. Non-trivial: S has a '.' at a line start, a bare CR or a bare LF; distinct by (stream, cuts, plan, mode).", maxLen, nRand, map[bool]string{true: fmt.Sprintf(", all 2^(n-1) cuttings for streams up to %d octets", allCutsUpTo), false: ""}[allCutsUpTo > 0])
 	ctx.Exhaustive = false
 	ctx.Assumptions = []string{
 		"reference = RFC 5321 4.5.2 as a CRLF line splitter (ref.Unstuff)",
@@ -191,6 +191,30 @@ func c01Run(ctx *core.Ctx) {
 				S := []byte(pre)
 				for k := 0; k < n; k++ {
 					S = append(S, 'y')
+				}
+				gen(S)
+			}
+		}
+		// long runs without any CRLF made of short lines that end in a bare LF (or a bare CR):
+		// far more octets than the line limit between two CRLFs, yet no line is long
+		for _, n := range []int{2500, 6100} {
+			for _, eol := range []string{"\n", "\n.", "\r", "\n\r"} {
+				var S []byte
+				for k := 0; len(S) < n; k++ {
+					S = append(S, strings.Repeat("z", 10+(k*7)%60)...)
+					S = append(S, eol...)
+				}
+				if eol == "\r" {
+					S = append(S, '\n') // (a bare-CR-only run would be an over-long LF-free run: close it once with LF)
+					S = S[:0]
+					for k := 0; len(S) < n; k++ {
+						S = append(S, strings.Repeat("z", 10+(k*7)%60)...)
+						if k%3 == 2 {
+							S = append(S, '\n')
+						} else {
+							S = append(S, '\r')
+						}
+					}
 				}
 				gen(S)
 			}
